@@ -11,3 +11,4 @@ from . import externs  # noqa: E402,F401
 from . import spec  # noqa: E402,F401
 from . import c_gkdi  # noqa: E402,F401
 from . import c_client  # noqa: E402,F401
+from . import c_dns  # noqa: E402,F401
